@@ -25,7 +25,7 @@ LEVEL_TEXT = ("Lean 4 theorem C03_diff_correct: for every formula tree, every po
 
 
 def correspond(ctx):
-    return X.run(ctx, "c03", ctx.n(300, 100000), gen_kwargs={"allow_repeated": True, "allow_revalue": True, "allow_cast": True})
+    return X.run(ctx, "c03", ctx.n(300, 100000), gen_kwargs={"allow_repeated": True, "allow_revalue": True, "allow_cast": True, "allow_routes": True})
 
 
 def search(ctx, broken):
@@ -33,7 +33,7 @@ def search(ctx, broken):
     # (a) the reference tables the theorems were last proved for, as oracle
     try:
         r = X.run(ctx, "c03", ctx.n(1500, 20000), ref=True,
-                  gen_kwargs={"allow_repeated": True, "allow_revalue": True, "allow_cast": True})
+                  gen_kwargs={"allow_repeated": True, "allow_revalue": True, "allow_cast": True, "allow_routes": True})
         for f in r["failures"]:
             f["oracle"] = "independent"
             f["kind"] = "violation"
